@@ -138,16 +138,17 @@ def deep_realize(x):
 # frames
 # ----------------------------------------------------------------------------------------------------------------
 class FakeCode:
-    def __init__(self, filename, name):
+    def __init__(self, filename, name, qualname=None):
         self.co_filename = filename
         self.co_name = name
+        self.co_qualname = qualname if qualname is not None else name      # python 3.11+: 'Cls.meth', 'outer.<locals>.inner'
 
 
 class FakeFrame:
     """Projection of types.FrameType the agent reads: f_code.co_filename/co_name, f_lineno, f_locals, f_globals, f_back."""
 
-    def __init__(self, filename, name, lineno, f_locals=None, f_globals=None, f_back=None):
-        self.f_code = FakeCode(filename, name)
+    def __init__(self, filename, name, lineno, f_locals=None, f_globals=None, f_back=None, qualname=None):
+        self.f_code = FakeCode(filename, name, qualname)
         self.f_lineno = lineno
         self.f_locals = {} if f_locals is None else f_locals
         self.f_globals = {} if f_globals is None else f_globals
